@@ -107,5 +107,42 @@ theorem updateF_tovecF (K : Ktensor α)
   simp only
   rw [go_flatMap _ _ hwf]
 
+/-! ### `update` overwrites: only the shape of the receiver matters -/
+
+theorem go_congr (R : Nat) :
+    ∀ (Fs Gs : List (Mat α)) (d : List α), Fs.map List.length = Gs.map List.length →
+      updateF.go R Fs d = updateF.go R Gs d := by
+  intro Fs
+  induction Fs with
+  | nil => intro Gs d h; cases Gs with
+    | nil => rfl
+    | cons B Gs => simp at h
+  | cons A Fs ih =>
+    intro Gs d h
+    cases Gs with
+    | nil => simp at h
+    | cons B Gs =>
+      simp only [List.map_cons, List.cons.injEq] at h
+      simp only [updateF.go, h.1, ih Gs _ h.2]
+
+theorem go_lengths (R : Nat) :
+    ∀ (Fs : List (Mat α)) (d : List α), (updateF.go R Fs d).map List.length = Fs.map List.length := by
+  intro Fs
+  induction Fs with
+  | nil => intro d; simp [updateF.go]
+  | cons A Fs ih => intro d; simp [updateF.go, ih]
+
+/-- Writing a vector into a tensor that was written before is writing it into the original. -/
+theorem updateF_updateF (K : Ktensor α) (v w : List α) : updateF (updateF K v) w = updateF K w := by
+  unfold updateF
+  simp only
+  rw [go_congr _ _ K.factors w (go_lengths _ _ _)]
+
+theorem updateF_foldl (evals : List (List α)) :
+    ∀ (K : Ktensor α) (w : List α), updateF (evals.foldl updateF K) w = updateF K w := by
+  induction evals with
+  | nil => intro K w; rfl
+  | cons v vs ih => intro K w; rw [List.foldl_cons, ih, updateF_updateF]
+
 end Opt
 end Pyttb
